@@ -2,12 +2,16 @@
 """merge known_findings.add.json (list) into known_findings.json (by id), then delete the add file.
 usage: merge_findings.py [id=commit ...]   to set commit ids of fixed entries"""
 import json, sys, pathlib
+
 root = pathlib.Path(__file__).resolve().parent.parent
 kf = json.loads((root / "known_findings.json").read_text())
 by = {f["id"]: f for f in kf["findings"]}
 addp = root / "known_findings.add.json"
 if addp.exists():
-    for f in json.loads(addp.read_text()):
+    add = json.loads(addp.read_text())
+    if isinstance(add, dict):
+        add = add['findings']
+    for f in add:
         by[f["id"]] = f
     addp.unlink()
 for a in sys.argv[1:]:
